@@ -191,6 +191,7 @@ type SpyBackend struct {
 		ListAll() ([]string, error)
 		Rename(oldpath, newpath string) error
 		RenameNX(oldpath, newpath string) error
+		Remove(path string) error
 		Lock() error
 		RLock() error
 		Unlock() error
@@ -216,6 +217,10 @@ func (s *SpyBackend) Rename(o, n string) error {
 func (s *SpyBackend) RenameNX(o, n string) error {
 	s.Log = append(s.Log, "renamenx "+n)
 	return s.Inner.RenameNX(o, n)
+}
+func (s *SpyBackend) Remove(p string) error {
+	s.Log = append(s.Log, "remove "+p)
+	return s.Inner.Remove(p)
 }
 func (s *SpyBackend) Lock() error    { return s.Inner.Lock() }
 func (s *SpyBackend) RLock() error   { return s.Inner.RLock() }
